@@ -223,6 +223,10 @@ def _counts(history):
 
 
 def expand(history, acc):
+  # the pristine results are computed BEFORE anything else happens in this process, so that a replay in a fresh
+  # interpreter compares against a true first call (hidden module/class state would otherwise already be primed)
+  for op in OPS:
+    _pristine(history[0][1], op)
   si, doc, st = _replay(history)
   spec = SEEDS[si]
   pristine_fp = fp_doc(build(spec))
@@ -257,17 +261,17 @@ def expand(history, acc):
     h2 = history + [op]
     if res != want:
       if res[0] == "raises" or want[0] == "raises":
-        acc.violation("C14.history-independent", f"op={op[0]},raises={res[1] if res[0] == 'raises' else want[1]}", {"history": h2, "seed_spec": spec},
+        acc.violation("C14.history-independent", f"op={op[0]},raises={res[1] if res[0] == 'raises' else want[1]}", {"history": history, "op": op, "seed_spec": spec},
                       observed=str(res)[:300], expected=str(want)[:300])
       elif op[0] == "fmc":
-        acc.violation("C14.cached-equals-uncached", _cache_disc(res[1], want[1]), {"history": h2, "seed_spec": spec, "t": _times(si)[op[1]]},
+        acc.violation("C14.cached-equals-uncached", _cache_disc(res[1], want[1]), {"history": history, "op": op, "seed_spec": spec, "t": _times(si)[op[1]]},
                       observed=_summ(res[1]), expected=_summ(want[1]))
       else:
-        acc.violation("C14.history-independent", f"op={op[0]},after={'+'.join(sorted({o[0] for o in history[1:]})) or 'nothing'}",
-                      {"history": h2, "seed_spec": spec}, observed=str(res)[:600], expected=str(want)[:600],
+        acc.violation("C14.history-independent", f"op={op[0]}",
+                      {"history": history, "op": op, "seed_spec": spec}, observed=str(res)[:600], expected=str(want)[:600],
                       note="result differs from the same operation on a freshly built document")
     if fp_doc(doc2) != pristine_fp:
-      acc.violation("C14.source-unchanged", f"op={op[0]}", {"history": h2, "seed_spec": spec}, note="operation changed the source document")
+      acc.violation("C14.source-unchanged", f"op={op[0]}", {"history": history, "op": op, "seed_spec": spec}, note="operation changed the source document")
     succ.append((op, (si, fp_doc(doc2), _sig_canon(st2.get("sig")), _counts(h2), _hidden_state())))
   return succ
 
